@@ -44,7 +44,8 @@ def run(cx):
                  ("R08b", "_append_chunk keeps the invariant on every path"),
                  ("R08c", "make(): chunks = merged list, scrlen computed from that same list"),
                  ("R08d", "no iteration over a container that the loop body grows (self-aliasing)"),
-                 ("R08e", "public operations build their results only through the funnel")):
+                 ("R08e", "public operations build their results only through the funnel"),
+                 ("R08f", "non-in-place operations return a fresh object (texts are mutable through +=)")):
         cx.rule(r, t)
     cht = cx.cls(REL, "CHText", "R08a")
     chunk = cx.cls(REL, "_CHTextChunk", "R08a")
@@ -178,6 +179,7 @@ def run(cx):
     _r08d(cx, repo, cht)
     # ------------------------------------------------------------------ R08e
     _r08e(cx, repo, cht, chunk)
+    _r08f(cx, repo, cht)
 
 
 class _Wrap:
@@ -276,6 +278,35 @@ def _r08d(cx, repo, cht):
     cx.at_least("R08d", "loops over another object's container that grow self", n, 1)
 
 
+def _r08f(cx, repo, cht):
+    """CHText is mutable (+=, _append_chunk).  An operation that is not in-place by definition must not return `self` or an
+    argument: `h = t + ""; h += "x"` would otherwise change t (the str model rebinds h only)."""
+    n = 0
+    classes = [cht]
+    if repo.has("ak/ppobj.py", "CHTextResult"):
+        classes.append(repo.cls("ak/ppobj.py", "CHTextResult"))
+    for cls in classes:
+        for f in [x for x in cls.body if isinstance(x, FUNC)]:
+            if f.name in ("__iadd__", "__init__", "_append_chunk", "make") or f.name.startswith("_") and not f.name.startswith("__"):
+                continue
+            if cls is not cht and f.name not in ("__add__", "__radd__", "__getitem__", "fixed_len", "get_ch_text"):
+                continue
+            if cls is cht and f.name not in ("__add__", "__radd__", "join", "__getitem__", "fixed_len"):
+                continue
+            ps = set(params(f))
+            for r in [x for x in walk_local(f) if isinstance(x, ast.Return) and x.value is not None]:
+                n += 1
+                v = r.value
+                alias = None
+                if isinstance(v, ast.Name) and v.id in ps and not [d for d in assignments(f, v.id)]:
+                    alias = v.id
+                if isinstance(v, ast.Attribute) and is_self_attr(v, "_ch_text"):
+                    alias = "self._ch_text"
+                cx.ob("R08f", r, alias is None, f"{cls.name}.{f.name} returns a new object" if alias is None else
+                      f"{cls.name}.{f.name} returns `{alias}` itself: a later `+=` on the result also changes the operand (the result must not alias it)")
+    cx.at_least("R08f", "returns of non-in-place operations", n, 10)
+
+
 def _r08e(cx, repo, cht, chunk):
     ops = {"CHText": ["__add__", "__radd__", "__iadd__", "join", "__getitem__", "fixed_len"],
            "_CHTextChunk": ["__add__", "__radd__", "__iadd__", "join", "__getitem__", "fixed_len", "clone", "add_chunks_same_type", "make_plain"]}
@@ -300,7 +331,7 @@ def _through_funnel(v, f, depth=0):
         return False, ""
     if isinstance(v, ast.Name):
         if v.id == "self":
-            return True, "returns self (already canonical)"
+            return True, "returns self (canonical; freshness is judged by R08f)"
         defs = [x for _, x in assignments(f, v.id)]
         real = [x for x in defs if x is not None]
         if real and all(_through_funnel(x, f, depth + 1)[0] for x in real):
